@@ -20,7 +20,9 @@ by the same fresh-process baselines:
 * units: all sequences of 2 (thorough 3) loads over five libraries written in
   different unit systems (three `units:` blocks over the same bare numbers,
   units on every number, the shipped BensonGA), the contents of EVERY live
-  library compared with a fresh load after every load;
+  library compared with a fresh load after every load, and (sixth wave) all
+  sequences of <= 2 unit expressions evaluated by the caller (fractional /
+  negative / integer powers of K, J, mol, cal) before each of the five loads;
 * refused requests: the event estd(i, mapping) - an estimate asked with a
   mapping made by the caller, good or perturbed in one entry (count not a
   number / foreign group, at the first / last position) - on two live
@@ -119,7 +121,8 @@ BOUND = {t: 'universes: 2 synthetic libraries (one with an include and '
             'matches below / at / over the cap of 10000) on one BensonGA object%s; '
             'units: all %d-sequences of loads over 5 libraries (3 `units:` '
             'blocks over the same bare numbers, units on every number, shipped '
-            'BensonGA), every live library dumped after every load; refused '
+            'BensonGA), every live library dumped after every load, plus all sequences of <= 2 of 5 '
+            'caller-evaluated unit expressions with fractional / negative powers before each load; refused '
             'requests: %s of 2 synthetic uncertainty libraries%s, all '
             'sequences of <= %d earlier requests from {9 caller-made mappings '
             '(1 good, 8 single-entry perturbations), 2 ordinary estimates} x 2 '
@@ -563,6 +566,15 @@ def _apply(world, ev):
         world.libs.append(dict(obj=lib, ident=(ev[1],), family=scheme_family(ev[1]),
                                last=None))
         return ['loaded']
+    if kind == 'evalqty':
+        # (sixth wave, C15-m16) the caller evaluates a unit expression of its
+        # own; the process-wide units table must not be touched by it
+        from pgradd.Units import eval_qty
+        try:
+            eval_qty(ev[1])
+            return ['evaluated']
+        except Exception as e:      # noqa
+            return ['EXC', type(e).__name__]
     if kind == 'rewrite':
         # the caller replaces the files behind a path by those of a variant
         import shutil
@@ -1225,6 +1237,7 @@ def run_blank(R):
 
 BIG_LEN = {'quick': 2, 'thorough': 3}
 UNITS_LEN = {'quick': 2, 'thorough': 3}
+UNIT_EXPRS = ('2 K^0.5', '3 J^1.5', 'mol^-0.5', 'cal^0.25 K^2', 'K^-1 mol^-1')
 REFUSED_PREFIX = {'quick': 1, 'thorough': 2}
 
 
@@ -1299,7 +1312,36 @@ def run_units(R, tier):
         R.traces += 1
         R.transitions += len(hist)
         n += 1
-    R.sample(dict(units_alphabet=W3.UNITS_ALPHABET, load_sequences=n), limit=1)
+    # (sixth wave) ALL sequences of <= 2 unit expressions evaluated by the
+    # caller (fractional, negative and integer powers of bare unit names that
+    # are their own entry of the units table), then every library of the
+    # alphabet loaded and compared with a fresh load
+    for k in (1, 2):
+        for exprs in itertools.product(UNIT_EXPRS, repeat=k):
+            for L in W3.UNITS_ALPHABET:
+                w = World()
+                hist = ()
+                for x in exprs:
+                    apply(w, ('evalqty', x))
+                    hist = hist + (('evalqty', x),)
+                try:
+                    apply(w, ('load', L))
+                except Exception as e:      # noqa
+                    R.outcomes['units:load-after-unit-expression-raises'] += 1
+                    R.violation('units-expr-breaks-load:%s' % type(e).__name__,
+                                'after the caller evaluated %r, Load(%r) raises %s: %s '
+                                '(a fresh process loads it)' % (
+                                    list(exprs), L, type(e).__name__, str(e)[:160]),
+                                dict(kind='hist', history=[list(e2) for e2 in hist],
+                                     event=['load', L], universe='units'))
+                    continue
+                hist = hist + (('load', L),)
+                observe_libraries(R, w, hist, 'units')
+                R.traces += 1
+                R.transitions += len(hist)
+                n += 1
+    R.sample(dict(units_alphabet=W3.UNITS_ALPHABET, unit_expressions=list(UNIT_EXPRS),
+                  load_sequences=n), limit=1)
 
 
 def refused_worlds(tier):
